@@ -1351,10 +1351,13 @@ func lineBoxVerticality(context *layoutContext, box Box) (pr.Float, pr.Float) {
 func translateSubtree(box Box, dy pr.Float) {
 	if bo.InlineT.IsInstance(box) {
 		box.Box().PositionY += dy
-		if va := box.Box().Style.GetVerticalAlign().S; va == "top" || va == "bottom" {
-			for _, child := range box.Box().Children {
-				translateSubtree(child, dy)
+		for _, child := range box.Box().Children {
+			c := child.Box()
+			if va := c.Style.GetVerticalAlign().S; c.IsFloated() || (c.IsInNormalFlow() && (va == "top" || va == "bottom")) {
+				// an aligned subtree of its own (listed in topBottomSubtrees): it is moved on its own account
+				continue
 			}
+			translateSubtree(child, dy)
 		}
 	} else {
 		// Text or atomic boxes
